@@ -229,7 +229,7 @@ func discValue(d *spec.Disc, schemaName string) string {
 			return k
 		}
 	}
-	return schemaName
+	return schemaName // implicit mapping
 }
 
 func setKey(o JObj, k string, v J) JObj {
